@@ -141,7 +141,8 @@ def run(sid, props, tier, in_repo=False):
             viol = [l for l in out.split("\n") if l.startswith("VIOLATION")]
             os.makedirs(f"/tmp/seeded_out/{sid}", exist_ok=True)
             open(f"/tmp/seeded_out/{sid}/{p}.log", "w").write(out)
-            results[p] = dict(rc=rc, violations=viol[:3], wall=round(time.time() - t0, 1))
+            notes = [l[:300] for l in out.split("\n") if l.startswith("NOTE ")]
+            results[p] = dict(rc=rc, violations=viol[:3], notes=notes[:2], wall=round(time.time() - t0, 1))
             print(f"  {sid} check {p}: rc={rc} {viol[:1]}", flush=True)
     finally:
         if in_repo:
